@@ -85,7 +85,9 @@ func (k *KVStore) SetConfig(c *storage.Config) {
 func (k *KVStore) makeTable() error {
 	if len(k.tables) != 0 {
 		head := k.tables[len(k.tables)-1]
-		head.SetState(table.ReadOnlyState)
+		if head.State() != table.RecycledState {
+			head.SetState(table.ReadOnlyState)
+		}
 
 		for i, t := range k.tables {
 			if t.State() == table.RecycledState {
@@ -194,6 +196,14 @@ func (k *KVStore) PutRaw(hkey uint64, value []byte) error {
 	for {
 		// Get the last value, storage only calls Put on the last created table.
 		t := k.tables[len(k.tables)-1]
+		if t.State() == table.RecycledState {
+			// The write table has been dropped by a transfer and a recycled table is the
+			// last one now. It is not registered for scans, activate it properly.
+			if err := k.makeTable(); err != nil {
+				return err
+			}
+			continue
+		}
 		err := t.PutRaw(hkey, value)
 		if errors.Is(err, table.ErrNotEnoughSpace) {
 			err := k.makeTable()
@@ -238,6 +248,13 @@ func (k *KVStore) Put(hkey uint64, value storage.Entry) error {
 	for {
 		// Get the last value, storage only calls Put on the last created table.
 		t := k.tables[len(k.tables)-1]
+		if t.State() == table.RecycledState {
+			// See PutRaw.
+			if err := k.makeTable(); err != nil {
+				return err
+			}
+			continue
+		}
 		err := t.Put(hkey, value)
 		if errors.Is(err, table.ErrNotEnoughSpace) {
 			err := k.makeTable()
